@@ -2,10 +2,12 @@ package driver
 
 import (
 	"context"
+	"encoding/hex"
 	"errors"
 	"fmt"
 	"io"
 	"strconv"
+	"strings"
 	"sync"
 	"time"
 
@@ -151,10 +153,24 @@ func (w *world) setIn(hs *hstate, in string) {
 
 type connKey struct{}
 
+// mdVal decodes a scripted metadata value: "@x:<hex>" stands for arbitrary bytes.
+func mdVal(v string) string {
+	if strings.HasPrefix(v, "@x:") {
+		b, err := hex.DecodeString(v[3:])
+		if err != nil {
+			panic("verif-harness: bad hex metadata value " + v)
+		}
+		return string(b)
+	}
+	return v
+}
+
+// mdOf builds metadata exactly as scripted: keys keep their letter case (the
+// library and grpc's metadata package have to normalise them).
 func mdOf(p [][2]string) metadata.MD {
 	m := metadata.MD{}
 	for _, kv := range p {
-		m.Append(kv[0], kv[1])
+		m[kv[0]] = append(m[kv[0]], mdVal(kv[1]))
 	}
 	return m
 }
